@@ -710,6 +710,17 @@ func (env *Env) evalCall(e *E) (data.Value, status) {
 			return data.Bool(l[0] == l[1]), stOK
 		}
 	}
+	// the number of keys of a map does not depend on the (unspecified) order of keys().
+	if e.Op == "length" && len(e.A) == 1 && e.A[0].K == "call" && e.A[0].Op == "keys" && len(e.A[0].A) == 1 {
+		v, st := env.Eval(e.A[0].A[0])
+		if st != stOK {
+			return nil, st
+		}
+		if m, ok := v.(data.Map); ok {
+			return data.Int(len(m)), stOK
+		}
+		return nil, stUnspec
+	}
 	args := make([]data.Value, len(e.A))
 	for i, a := range e.A {
 		v, st := env.Eval(a)
